@@ -150,8 +150,11 @@ def real_shard(seed, n, tier="quick"):
     @settings(max_examples=n, database=None, deadline=None, suppress_health_check=list(HealthCheck), report_multiple_bugs=False,
               phases=phases)
     @given(st.integers(1, 3), st.lists(task, min_size=1, max_size=5), st.booleans(), st.sampled_from(["shutdown", "shutdown", "reusable_kill"]),
-           st.sampled_from([0, 0.05, 0.3]), st.sampled_from([0, 0, 1, 2]))
-    def t(workers, tasks, psutil_, via, delay, reap_nth):
+           st.sampled_from([0, 0.05, 0.3]), st.sampled_from([0, 0, 1, 2]), st.sampled_from([False, False, False, True]))
+    def t(workers, tasks, psutil_, via, delay, reap_nth, idle_pool):
+        if idle_pool:
+            # stratum: every task has returned when the forced shutdown arrives (idle pool), its descendants stay behind
+            tasks = [dict(x, finish=True, subprocs=max(1, x["subprocs"])) for x in tasks]
         prog = {"workers": workers, "tasks": tasks, "psutil": psutil_, "via": via, "delay": delay}
         if reap_nth and psutil_:
             # fault point: a listed descendant exits (and is reaped) between the listing of the tree and its own kill
@@ -167,6 +170,8 @@ def real_shard(seed, n, tier="quick"):
             acc.count("real_psutil:" + str(psutil_))
             acc.count("real_via:" + via)
             acc.count("real_with_reap_fault" if prog.get("plan") else "real_no_fault")
+            if all(x["finish"] for x in tasks) and any(x["subprocs"] or x["nested"] for x in tasks):
+                acc.count("real_idle_pool_with_descendants")
             acc.count("real_recorded_pids", res["n_pids"])
         if v:
             fails.append({"kind": v[0][0], "detail": v[0][1], "case": case, "where": "real"})
